@@ -12,6 +12,8 @@ type bytesOf struct{ root ssa.Value }
 
 // evalComparator interprets a CompareFn-shaped function with the user key
 // comparator bound to k and field atoms bound by `atoms` (field -> [this,that]).
+var foreignKeyCmp int
+
 func evalComparator(p *Prog, fn *ssa.Function, k int64, atoms map[*types.Var][2]int64) (ret int64, keyOrderOK bool, keyCalls int, msg string) {
 	bytesFn := p.FuncOpt("nitro", "Item", "Bytes")
 	this, that := fn.Params[0], fn.Params[1]
@@ -40,6 +42,15 @@ func evalComparator(p *Prog, fn *ssa.Function, k int64, atoms map[*types.Var][2]
 	it.call = func(in *ssa.Call, args []ival, env map[ssa.Value]ival) (ival, bool) {
 		if bytesFn != nil && p.CallsAny(in, bytesFn) {
 			return ival{kind: 'p', h: bytesOf{strip(in.Call.Args[0])}}, true
+		}
+		// a key comparison that does not go through the user-supplied comparator
+		if callee := in.Call.StaticCallee(); callee != nil && len(args) == 2 {
+			_, aok := args[0].h.(bytesOf)
+			_, bok := args[1].h.(bytesOf)
+			if aok && bok {
+				foreignKeyCmp++
+				return ival{kind: 'i', i: k}, true
+			}
 		}
 		if in.Call.StaticCallee() == nil && !in.Call.IsInvoke() {
 			// the user key comparator
@@ -78,6 +89,10 @@ func closureOf(p *Prog, ctor string) *ssa.Function {
 	for _, in := range p.Info(f).Instrs {
 		if ret, isR := in.(*ssa.Return); isR && len(ret.Results) == 1 {
 			if mc, isMC := strip(ret.Results[0]).(*ssa.MakeClosure); isMC && mc.Fn == f.AnonFuncs[0] {
+				ok = true
+			}
+			// a function literal that captures nothing is a plain function value
+			if fv, isF := strip(ret.Results[0]).(*ssa.Function); isF && fv == f.AnonFuncs[0] {
 				ok = true
 			}
 		}
@@ -131,6 +146,7 @@ func clItemComparatorTables(c *Ctx) {
 	}
 	for _, s := range specs {
 		fn := closureOf(p, s.ctor)
+		foreignBefore := foreignKeyCmp
 		bad := []string{}
 		pts := 0
 		orderBad := false
@@ -179,6 +195,8 @@ func clItemComparatorTables(c *Ctx) {
 		}
 		c.Check(len(bad) == 0, fn, nil, s.ctor+" decision table", det)
 		c.Check(!orderBad, fn, nil, s.ctor+" applies the key comparator to (this.Bytes(), that.Bytes())", "the user key comparator receives the operands in the wrong order or not the item bytes")
+		c.Check(len(fn.FreeVars) >= 1, fn, nil, s.ctor+" is built over the key comparator it was given", "the comparator does not capture the configured key comparator")
+		c.Check(foreignKeyCmp == foreignBefore, fn, nil, s.ctor+" consults the configured key comparator only", "keys are compared by a fixed function instead of the configured key comparator: with a custom comparator the store is ordered by one order and searched by another (Seek lands on wrong items, scans with refresh loop or drop items)")
 	}
 }
 
